@@ -1362,7 +1362,9 @@ func coordPlan() coordTierPlan {
 		resub.Resub = true
 		return coordTierPlan{Runs: []*coordCfg{deep, codec, resub}, NoMergeRuns: []*coordCfg{coordDefaultCfg("mem", 3)}}
 	}
-	return coordTierPlan{Runs: []*coordCfg{coordDefaultCfg("mem", 6), coordDefaultCfg("codec", 5)}}
+	resub := coordDefaultCfg("mem", 4)
+	resub.Resub = true
+	return coordTierPlan{Runs: []*coordCfg{coordDefaultCfg("mem", 6), coordDefaultCfg("codec", 5), resub}}
 }
 
 // coordRunCheck runs the shared exploration with one property's oracle.
